@@ -106,8 +106,10 @@ fn tree_cases(ctx: &mut Ctx) {
         // channel LLRs: a random sign pattern (often far from a codeword), magnitudes 0.25 .. 6
         // a third of the cases with large magnitudes (the tanh clamps 18 / 9 act on x/2, so |x| up to 30 / 15 is still exact)
         let name = EXACT[k % EXACT.len()];
-        let big = rng.chance(1, 3);
-        let (lo, hi) = if !big { (0.25, 6.0) } else if name.ends_with("32") { (4.0, 15.0) } else { (8.0, 30.0) };
+        // large magnitudes only for the tanh rule, whose saturation (clamp of x/2 at 18 / 9) the reference reproduces; the phi rule saturates
+        // differently (1e-30 guard; in f32 tanh rounds to 1 beyond |x| ~ 18), so it stays where no saturation can act
+        let big = name.contains("Tanh") && rng.chance(1, 3);
+        let (lo, hi) = if big { if name.ends_with("32") { (4.0, 15.0) } else { (8.0, 30.0) } } else if name == "Phif32" || name == "HLPhif32" { (0.25, 3.0) } else { (0.25, 6.0) };
         let llrs: Vec<f64> = (0..cols)
             .map(|_| {
                 let m = lo + (hi - lo) * rng.f64_unit();
